@@ -76,4 +76,14 @@ def replicateCandidates (closestK : List Peer) (range : Option Nat) : List Peer 
     if inr.length ≥ closeGroupSize then inr else closestK.take closeGroupSize
   | none => closestK.take closeGroupSize
 
+/-- `Network::get_all_close_peers_in_range_or_close_group` on the peers the network returned
+(`client = true`: the caller's own id does not count). `none` = `NotEnoughPeers`. -/
+def closeGroupSelect (ps : List Peer) (selfId : Nat) (client : Bool) : Option (List Peer) :=
+  if clientStripsSelfBeforeSort then
+    sortPeersByKey (if client then ps.filter (fun p => p.1 != selfId) else ps) expandedCloseGroup
+  else
+    match sortPeersByKey ps expandedCloseGroup with
+    | none => none
+    | some r => some (if client then r.filter (fun p => p.1 != selfId) else r)
+
 end SafeNet.Distance
